@@ -1256,8 +1256,46 @@ def run_parquet(case):
         return _diff("rows differ", exp, res[1])
 
 
+_SQUASH_PREDS = {
+    "cumsum": lambda d: d.b.cumsum() > 5,
+    "cummax": lambda d: d.b.cummax() > 1,
+    "shift": lambda d: d.b.shift(1) > 1,
+    "diff": lambda d: d.b.diff() < 0,
+    "rowlocal": lambda d: d.b + d.a > 4,          # control: squashing IS sound here
+    "reduction": lambda d: d.b > d.b.mean(),       # the case the code already guarded
+}
+
+
+def run_squash(case):
+    """two consecutive filters; the outer predicate is computed from the FILTERED frame (D65)"""
+    import numpy as np
+    import pandas as pd
+
+    import dask_expr as dx
+
+    pdf = pd.DataFrame({"a": np.arange(20, dtype="int64"), "b": (np.arange(20, dtype="int64") * 3) % 7})
+    df = dx.from_pandas(pdf, npartitions=case["npartitions"])
+    inner = {"gt": lambda d: d.a > 3, "even": lambda d: d.a % 2 == 0}[case["inner"]]
+    pred = _SQUASH_PREDS[case["outer"]]
+    p2 = pdf[inner(pdf)]
+    want = p2[pred(p2)]
+    d2 = df[inner(df)]
+    q = d2[pred(d2)]
+    try:
+        got = q.compute()
+    except NotImplementedError as ex:
+        if "overlapping window" in str(ex):
+            return None  # documented refusal
+        raise
+    if got.a.tolist() != want.a.tolist():
+        return f"df[{case['inner']}][{case['outer']}-predicate of the filtered frame]: rows {got.a.tolist()} instead of {want.a.tolist()}"
+    return None
+
+
 def run_case(case):
     kind = case["kind"]
+    if kind == "squash":
+        return run_squash(case)
     if kind == "cross":
         # `repeat`: DiskShuffle's row order inside a partition differs from build to build (uuid keys, D11), which
         # makes the one query whose result depends on it nondeterministic; repeat until the first failure
@@ -1276,6 +1314,8 @@ def run_case(case):
 
 
 def _sig(case):
+    if case["kind"] == "squash":
+        return {"kind": "squash", "outer": case["outer"]}
     if case["kind"] == "cross":
         op = case["op"]
         sh = case.get("shared", "none")
@@ -1339,6 +1379,13 @@ CORPUS = [
     {"kind": "cross", "op": "astype_narrow", "tree": ["a", 16], "shared": "none"},                              # n == 1 after int32 wrap
     {"kind": "cross", "op": "astype_narrow", "tree": ["or", ["a", 15], ["a", 17]], "shared": "none"},           # x == f32(0.1) | n < 0
     {"kind": "cross", "op": "astype_narrow", "tree": ["and", ["a", 18], ["not", ["a", 6]]], "shared": "then_project"},   # int64 -> float64 above 2**53 (numpy "safe")
+    # filter squashing through predicates that are not row-local (D65)
+    {"kind": "squash", "inner": "gt", "outer": "cumsum", "npartitions": 3},
+    {"kind": "squash", "inner": "even", "outer": "cummax", "npartitions": 3},
+    {"kind": "squash", "inner": "even", "outer": "shift", "npartitions": 2},
+    {"kind": "squash", "inner": "even", "outer": "diff", "npartitions": 2},
+    {"kind": "squash", "inner": "gt", "outer": "reduction", "npartitions": 3},
+    {"kind": "squash", "inner": "gt", "outer": "rowlocal", "npartitions": 3},
     # x = df.shuffle(disk); x[pred].index : Index(shuffle A) masked positionally by a predicate over shuffle B
     {"kind": "cross", "op": "shuffle_disk", "tree": ["a", 4], "shared": "then_index", "repeat": 40},
 ]
